@@ -148,3 +148,84 @@ Proof.
 Qed.
 
 End V.
+
+(* ---- the whole unlimited search: the last score reported for each of the depths 1..3 is the exact value *)
+From Walleye Require Import Proofs.RootDraw.
+
+Section W.
+Variable zt : ztable.
+Variable osort : N -> list BoardState -> list BoardState.
+Hypothesis osort_perm : forall i l, Permutation l (osort i l).
+
+Definition root_value (b : BoardState) (t : dtable) (d A : Z) : Prop :=
+  exists F ws, 1 + Z.of_nat F <= 100 /\
+    Forall2 (rval zt F d t) (generate_moves zt b AllMoves) ws /\ is_max A (map Z.opp ws).
+
+Definition exact_upto (b : BoardState) (t : dtable) (cur : Z) (evs : list event) : Prop :=
+  forall d e A, d < cur -> 1 <= d <= 3 -> newest_info d evs = Some e -> root_value b t d A -> e = A.
+
+Lemma root_depths_exact fuel b t : forall iters moves cur r r',
+  root_depths zt osort None iters fuel b moves cur r = Ok r' ->
+  dt_nonneg t -> dt_equiv (table (r_s r)) t -> 1 <= cur ->
+  Forall2 same_move moves (generate_moves zt b AllMoves) ->
+  exact_upto b t cur (r_events r) -> below cur (r_events r) ->
+  exists cur', exact_upto b t cur' (r_events r') /\ below cur' (r_events r').
+Proof.
+  induction iters as [|it IH]; intros moves cur r r' H NN ET Hc SM G B0; cbn [root_depths] in H.
+  - apply ok_inj in H. subst r'. eauto.
+  - destruct (MAX_DEPTH <=? cur); [apply ok_inj in H; subst r'; eauto|].
+    set (s0 := reset_search (r_s r)) in *.
+    assert (T0 : table s0 = table (r_s r)) by reflexivity.
+    pose proof (do_sort_perm osort osort_perm moves s0) as P.
+    destruct (do_sort osort moves s0) as [sorted s1] eqn:DS. cbn [fst] in P.
+    assert (T1 : table s1 = table s0) by (change s1 with (snd (sorted, s1)); rewrite <- DS; reflexivity).
+    assert (G' : exact_upto b t (cur + 1) (r_events r) -> exact_upto b t (cur + 1) (r_events r)) by auto.
+    destruct sorted as [|first rest].
+    + apply (IH _ _ _ _ H NN); auto.
+      * cbn [r_s]. now rewrite T1, T0.
+      * lia.
+      * apply Forall2_same_refl.
+      * intros d e A Hd Hr Hn. cbn [r_events] in Hn. destruct (Z_lt_le_dec d cur) as [L|L]; [now apply (G d e A)|].
+        rewrite (newest_none cur _ d B0 L) in Hn. discriminate.
+      * cbn [r_events]. eapply Forall_impl; [|exact B0]. intros [b1|d1 e1 l1]; [auto|lia].
+    + destruct (root_moves zt osort None fuel first (first :: rest) cur NEG_INF (mkR s1 (r_best r) (r_events r))) as [[[r1|] rl]| |] eqn:RM; try discriminate H.
+      * destruct (root_moves_events zt osort fuel first cur _ _ _ _ _ RM) as [_ (new & En & Fn)]. cbn [r_events] in En.
+        assert (ET1 : dt_equiv (table (r_s (mkR s1 (r_best r) (r_events r)))) t) by (cbn [r_s]; rewrite T1, T0; exact ET).
+        assert (E1 : dt_equiv (table (r_s r1)) t).
+        { destruct (root_moves_restores zt osort None fuel first _ _ _ _ _ _ t NN ET1 RM) as [_ X]. exact X. }
+        apply (IH _ _ _ _ H NN); auto.
+        -- lia.
+        -- apply mark_pv_same.
+        -- intros d e A Hd Hr Hn RV. destruct (Z.eq_dec d cur) as [->|Hne].
+           ++ destruct RV as (F & ws & HF & HFv & IM).
+              assert (NEg : generate_moves zt b AllMoves <> []).
+              { intros Eg. rewrite Eg in SM. inversion SM; subst. apply Permutation_nil in P. discriminate P. }
+              destruct (root_iteration_value zt osort osort_perm fuel F first t cur b moves (first :: rest) ws A
+                          (mkR s1 (r_best r) (r_events r)) (Some r1) rl Hr HF NN NEg SM P HFv IM ET1 RM)
+                as (r1' & mov & line & evs & x & Ho & Ev & _). apply some_inj in Ho. subst r1'.
+              rewrite Ev in Hn. cbn [newest_info] in Hn. rewrite Z.eqb_refl in Hn. now apply some_inj in Hn.
+           ++ rewrite En, (newest_info_skip d cur new (r_events r) Hne Fn) in Hn. apply (G d e A); [lia|exact Hr|exact Hn|exact RV].
+        -- rewrite En. apply Forall_app. split.
+           ++ eapply Forall_impl; [|exact Fn]. intros [b1|d1 e1 l1]; cbn; [auto|intros ->; lia].
+           ++ eapply Forall_impl; [|exact B0]. intros [b1|d1 e1 l1]; [auto|lia].
+      * destruct (root_moves_events zt osort fuel first cur _ _ _ _ _ RM) as [N _]. now contradiction N.
+Qed.
+
+Theorem unlimited_scores_exact fuel b t evs s :
+  dt_nonneg t -> get_best_move zt osort None fuel b t = Ok (evs, s) ->
+  forall d e A, 1 <= d <= 3 -> newest_info d (rev evs) = Some e -> root_value b t d A -> e = A.
+Proof.
+  intros NN H d e A Hd Hn RV. unfold get_best_move in H.
+  destruct (root_depths zt osort None (Z.to_nat MAX_DEPTH) fuel b (generate_moves zt b AllMoves) 1 (mkR (new_search t) None [])) as [r| |] eqn:RD; try discriminate H.
+  assert (evs = rev (r_events r)) by congruence. subst evs. rewrite rev_involutive in Hn.
+  destruct (root_depths_exact fuel b t _ _ _ _ _ RD NN) as (cur' & G & B0).
+  - apply dt_equiv_refl.
+  - lia.
+  - apply Forall2_same_refl.
+  - intros d0 e0 A0 _ _ X. discriminate X.
+  - constructor.
+  - destruct (Z_lt_le_dec d cur') as [L|L]; [exact (G d e A L Hd Hn RV)|].
+    rewrite (newest_none cur' _ d B0 L) in Hn. discriminate Hn.
+Qed.
+
+End W.
